@@ -48,6 +48,8 @@ def _worker(args):
     t_end = time.time() + opts.get("budget_s", 1e9)
     shrink_budget = opts.get("shrink_s", 40 if tier == "quick" else 240)
     t_fail = [None]
+    hangs = [0]
+    hang_budget = opts.get("hang_budget", 4)
 
     def run_one(case):
         r = mod.evaluate(case, ctx)
@@ -58,6 +60,8 @@ def _worker(args):
             st["notes"][n] = st["notes"].get(n, 0) + 1
         if r.inconclusive:
             st["inconclusive"][r.inconclusive] = st["inconclusive"].get(r.inconclusive, 0) + 1
+            if r.inconclusive == "sut_hang":
+                hangs[0] += 1
         if r.nontrivial:
             h = case_hash(case)
             if h not in st["nontrivial"]:
@@ -84,6 +88,9 @@ def _worker(args):
     def test(case):
         if st["fail"] is None and time.time() > t_end:
             return   # budget exhausted: remaining examples are no-ops (counted as skipped)
+        if st["fail"] is None and hangs[0] >= hang_budget:
+            st["notes"]["worker stopped early: the daemon stopped answering in %d cases (hangs are judged by C08)" % hang_budget] = 1
+            return   # every further case would cost the hang timeout; the property's own oracle saw nothing
         if t_fail[0] is not None and time.time() - t_fail[0] > shrink_budget:
             return   # shrinking budget used up: keep the smallest failing case found so far
         mine = run_one(case)
